@@ -753,6 +753,15 @@ def build_streams(ctx, toks, corp, want_items=False):
     # a lexer error directly after every token kind in every position class
     yield "lex-error", [{"main": t, "mods": {}, "stream": "lex-error-after-token"} for t in lex_error_after_token(toks)]
 
+    # every name the host modules know (and one they do not), asked for under every import kind, in both import forms
+    hi = []
+    for mod in ("net", "triggers", "templates", "testing", "veriftemplates", "nomod"):
+        for name in ("ping", "http", "HttpResponse", "minute", "FooFeature", "Trio", "assert_eq", "any_func", "any_list", "nope"):
+            for kind in ("", "type ", "templ ", "trigger "):
+                hi.append({"main": b(f"import {kind}{name} from {mod};\nfn main() {{ }}\n"), "mods": {}, "stream": "host-import"})
+                hi.append({"main": b(f"import {{ {kind}{name}, {kind}nope }} from {mod};\nfn main() {{ }}\n"), "mods": {}, "stream": "host-import"})
+    yield "host-imports", hi
+
     # grammar-directed programs (syntactically valid, semantically arbitrary)
     yield "wild", wild_cases(rng, 8000 if quick else 120000)
 
